@@ -24,7 +24,7 @@ func init() {
 		ID: "C16",
 		Rule: "per case a random JSON text (objects/arrays nested to depth 30, empty containers in every position, duplicate/empty/odd keys, scalars of every kind at top level and inside, several concatenated top-level values) rendered with random whitespace, string escapes and number spellings -> xsel.ReadJson; oracle: direct recursive mapping written from the README (#obj/#arr, one element per member named by the key, one text node per scalar, siblings never merged) compared by parallel walk plus the C10 structural invariants, numbers accepted iff they read back to the same double with the minimal number of significant digits; " +
 			"malformed: every proper prefix of the rendering (capped) plus single-token deletions/insertions: whenever encoding/json's Decoder.Decode loop rejects the bytes as a sequence of complete values, ReadJson must return a non-nil error. distinct_nontrivial = distinct value-shape signatures and distinct (malformation kind, shape)",
-		NCases: func(tier string) int { return map[string]int{"quick": 2500, "thorough": 100000}[tier] },
+		NCases: func(tier string) int { return map[string]int{"quick": 50000, "thorough": 3000000}[tier] },
 		Case:   c16Case,
 	})
 }
